@@ -129,3 +129,11 @@ claim("C14",
       "unwrap in parsed.rs can trap whatever values the public fields hold. That resolution succeeds exactly on the documented combinations and the error classification are not decided.",
       "Trusted: analysis/sym.py path enumeration; read sets are syntactic (a field read but ignored is not detected); analysis/abs*.py; specs/justifications.txt.",
       "DESIGN.md 5/C14")
+claim("C09",
+      "writer/reader skeleton agreement extracted from MIR (literal writes, compiled format templates, FromStr item lists), sign-derivation rule, name-table comparison",
+      "NARROW claim. Decides the structural necessary condition of the round trip: the separators and field order written by Debug/Display of NaiveDate, NaiveTime, "
+      "NaiveDateTime equal their FromStr item lists; DateTime's forms are those plus the offset and the relaxed RFC 3339 reader accepts every separator they emit; "
+      "FixedOffset writes the sign of the whole offset and |offset| as hh:mm[:ss]; Weekday/Month names vs scanners. One recorded finding: NaiveDateTime's Display (space) "
+      "does not parse back with FromStr ('T' only). Year sign/width, fraction digit choice, second 60 and padding, i.e. the round trip for concrete values, are not decided.",
+      "Trusted: analysis/sym.py; the decoding of rustc's compiled fmt templates (unknown opcodes fail closed).",
+      "DESIGN.md 5/C09")
